@@ -295,6 +295,21 @@ Theorem C19_validate_MinFlowDecompCycles_refuted_nonconserving :
   exists i, in_domain_MinFlowDecompCycles i = false /\ validate_MinFlowDecompCycles i = AcceptsButUnsolved.
 Proof. exact validate_MinFlowDecompCycles_refuted_nonconserving. Qed.
 Print Assumptions C19_validate_MinFlowDecompCycles_refuted_nonconserving.
+(* k and solution_weights_superset: kFlowDecomp validates the caller's k before and independently of the given weights *)
+Theorem C19_kFlowDecomp_k_checked_independently_of_given_weights : forall i,
+  k_own_bad i = true -> validate_kFlowDecomp i <> Accept.
+Proof. exact kFlowDecomp_k_checked_independently_of_given_weights. Qed.
+Print Assumptions C19_kFlowDecomp_k_checked_independently_of_given_weights.
+(* OPEN kErrDAG:accepted:invalid-k-with-solution_weights_superset *)
+Theorem C19_validate_kLeastAbsErrors_refuted_k_with_given_weights :
+  exists i, in_domain_kLeastAbsErrors i = false /\ k_bad i = true /\ validate_kLeastAbsErrors i = Accept.
+Proof. exact validate_kErrDAG_refuted_k_with_given_weights. Qed.
+Print Assumptions C19_validate_kLeastAbsErrors_refuted_k_with_given_weights.
+(* OPEN kFlowDecomp:accepted:bool-k-with-solution_weights_superset *)
+Theorem C19_validate_kFlowDecomp_refuted_bool_k_with_given_weights :
+  exists i, in_domain_kFlowDecomp i = false /\ validate_kFlowDecomp i = Accept.
+Proof. exact validate_kFlowDecomp_refuted_bool_k_with_given_weights. Qed.
+Print Assumptions C19_validate_kFlowDecomp_refuted_bool_k_with_given_weights.
 (* MinFlowDecompCycles:ValueError:node-mode-additional-starts *)
 Theorem C19_accepts_domain_MinFlowDecompCycles_refuted_node_mode_starts :
   exists i, in_domain_MinFlowDecompCycles i = true /\ has_live i = true /\ validate_MinFlowDecompCycles i = RaiseValueError.
@@ -417,6 +432,9 @@ Example C19_nonvacuous_invalid :
    validate_kLeastAbsErrors (set_covlen (set_cons ex_dag one (1#2)%Q) (Some (1#2)%Q) true) = RaiseValueError /\
    validate_kLeastAbsErrors (set_covlen ex_dag (Some (3#2)%Q) true) = RaiseValueError /\
    in_domain_kLeastAbsErrors (set_covlen ex_dag (Some (3#2)%Q) true) = false) /\
+  (* an invalid k is rejected by kFlowDecomp with and without given weights *)
+  validate_kFlowDecomp (set_superset k0 true) = RaiseValueError /\ validate_kFlowDecomp (set_superset kf true) = RaiseValueError /\
+  validate_kFlowDecomp (set_k ex_dag (KBool true)) = RaiseValueError /\ validate_kFlowDecomp (set_superset ex_dag true) = Accept /\
   (* a graph whose only cycle is a self-loop is not a DAG *)
   in_domain_kFlowDecomp (set_loop_pct ex_dag true PNone PNone) = false /\ validate_kFlowDecomp (set_loop_pct ex_dag true PNone PNone) = RaiseValueError /\
   validate_stDAG (set_loop_pct ex_dag true PNone PNone) = RaiseValueError /\
